@@ -51,7 +51,7 @@ class C04(EgSpec):
 
     def nontrivial(self, stream, case, impl_obs):
         m = motif_of(case)
-        return ('variant' in m or 'sub' in m or 'context' in m or 'sym' in m) and '(pre (red false) (lhs true))' in impl_obs
+        return ('variant' in m or 'sub' in m or 'context' in m or 'sym' in m or 'interference' in m) and '(pre (red false) (lhs true))' in impl_obs
 
     def shrinkable(self):
         return False
